@@ -1107,3 +1107,79 @@ mod test {
         }
     }
 }
+
+// Verification hook H3 (only compiled with `--cfg tracing_verif`): a real
+// `Inner` built without touching the filesystem, and forwarders to the private
+// rotation arithmetic. They call the real code; nothing is copied.
+#[cfg(tracing_verif)]
+#[allow(missing_docs, unreachable_pub)]
+pub(crate) mod __verif_rolling {
+    use super::*;
+
+    /// A real `Inner` (rotation state) with no file behind it.
+    #[derive(Debug)]
+    pub struct VInner(Inner);
+
+    impl VInner {
+        /// `next_date` is the raw deadline (unix seconds, 0 = never); the
+        /// directory, file names and date format are left empty.
+        pub fn new(rotation: Rotation, next_date: usize) -> Self {
+            VInner(Inner {
+                log_directory: PathBuf::new(),
+                log_filename_prefix: None,
+                log_filename_suffix: None,
+                date_format: Vec::new(),
+                rotation,
+                next_date: AtomicUsize::new(next_date),
+                max_files: None,
+            })
+        }
+
+        /// Same, with the rotation's real date format and the given file name parts
+        /// (for `join_date`).
+        pub fn with_names(
+            rotation: Rotation,
+            next_date: usize,
+            prefix: Option<String>,
+            suffix: Option<String>,
+        ) -> Self {
+            VInner(Inner {
+                log_directory: PathBuf::new(),
+                log_filename_prefix: prefix,
+                log_filename_suffix: suffix,
+                date_format: rotation.date_format(),
+                rotation,
+                next_date: AtomicUsize::new(next_date),
+                max_files: None,
+            })
+        }
+
+        pub fn should_rollover(&self, date: OffsetDateTime) -> Option<usize> {
+            self.0.should_rollover(date)
+        }
+
+        pub fn advance_date(&self, now: OffsetDateTime, current: usize) -> bool {
+            self.0.advance_date(now, current)
+        }
+
+        pub fn join_date(&self, date: &OffsetDateTime) -> String {
+            self.0.join_date(date)
+        }
+
+        /// Current raw value of the deadline.
+        pub fn next_date(&self) -> usize {
+            self.0.next_date.load(Ordering::Acquire)
+        }
+    }
+
+    pub fn rotation_next_date(
+        rotation: &Rotation,
+        current_date: &OffsetDateTime,
+    ) -> Option<OffsetDateTime> {
+        rotation.next_date(current_date)
+    }
+
+    pub fn rotation_round_date(rotation: &Rotation, date: &OffsetDateTime) -> OffsetDateTime {
+        rotation.round_date(date)
+    }
+}
